@@ -11,6 +11,13 @@ Scenario (JSON-serialisable dict, every time in absolute virtual milliseconds, -
               pool: queued behind R for the slot; dnsfirst: C started 1 ms before R and owns the
               shared lookup; dnswait: C started 1 ms after R and waits on R's lookup
   dns         None (literal IP cached beforehand: no lookup) | ms | -1   answer time of the lookup
+              dnsafter: C starts at `c_at` (>= t0), in the same callback AFTER a cancel scheduled for that
+              instant and `c_late` loop iterations later (0..3) — a request that joins the lookup of R
+              after R was cancelled / timed out
+  dns_unwind  ms the scripted resolver needs to unwind when ITS task is cancelled (never happens on
+              the unchanged tree: the shared lookup is shielded)
+  tls         None (plain http) | list of ms|-1: https request; completion time of the TLS handshake
+              of each successive connect attempt (after its TCP connect completed)
   naddr       number of addresses the resolver returns (1 or 2)
   conn        list of ms|-1: completion time of each successive connect attempt
   body        0 | n   request body size;   wresume  None | ms | -1: the transport pauses writing at
@@ -22,6 +29,7 @@ Scenario (JSON-serialisable dict, every time in absolute virtual milliseconds, -
   cancel      None | ms          Task.cancel() of R at that instant; events listed at the same
                                  instant are performed BEFORE the cancel in the same callback
   think       ms the consumer sleeps after the headers before reading the body
+  slow        1: the consumer streams instead: readany(), sleep `think`, readany(), ... until EOF
   bufsize     read_bufsize of the session (pause threshold = 2*bufsize)
 """
 import asyncio, heapq, itertools, socket
@@ -205,10 +213,11 @@ class Env:
         self.dns_pending = []      # futures of stalled lookups
         self.dns_calls = 0
         self.conn_futs = []        # R's connect attempts (futures)
+        self.tls_futs = []         # R's TLS handshakes (futures)
         self.transports = []
         self.socks = []
         self.unstalled = False
-        self.trace = {"attempts": [], "established": [], "delivered": [], "eof_at": None, "abandoned": [], "pauses": []}
+        self.trace = {"attempts": [], "established": [], "delivered": [], "eof_at": None, "abandoned": [], "pauses": [], "tls_started": [], "lookup_cancelled": None}
 
     def now(self):
         return int(round(self.loop.time() * 1000))
@@ -227,7 +236,16 @@ class Env:
         if host == "r.test" and self.sc.get("dns") is not None and not self.unstalled:
             fut = self.loop.create_future()
             self.dns_pending.append(fut)
-            await fut
+            try:
+                await fut
+            except asyncio.CancelledError:
+                self.trace["lookup_cancelled"] = self.now()
+                if self.sc.get("dns_unwind"):
+                    try:
+                        await asyncio.sleep(self.sc["dns_unwind"] / 1000.0)
+                    except asyncio.CancelledError:
+                        pass
+                raise
         return res
 
     async def close(self):
@@ -254,12 +272,28 @@ class Env:
                 raise
         return sock
 
+    def tls_complete(self, i):
+        if i < len(self.tls_futs) and not self.tls_futs[i].done():
+            self.tls_futs[i].set_result(None)
+
     def conn_complete(self, i):
         if i < len(self.conn_futs) and not self.conn_futs[i].done():
             self.conn_futs[i].set_result(None)
 
     async def create_connection(self, loop, protocol_factory, *, ssl=None, sock=None, server_hostname=None,
                                 ssl_shutdown_timeout=None):
+        if self.owner() == "R" and self.sc.get("tls") is not None and not self.unstalled:
+            # TCP is up; the TLS handshake happens here and the scripted peer may stall it
+            fut = self.loop.create_future()
+            self.tls_futs.append(fut)
+            self.trace["tls_started"].append(self.now())
+            try:
+                await fut
+            except BaseException:
+                self.trace["abandoned"].append(self.now())
+                if sock is not None:
+                    sock.close()
+                raise
         proto = protocol_factory()
         tr = MemTransport(self.loop, proto, self.owner())
         tr.sock = sock
@@ -334,9 +368,18 @@ def run_scenario(sc):
                 async with session.request("POST" if data else "GET", url, data=data, **kw) as r:
                     if name == "R":
                         at["headers"] = ms(loop)
-                    if think:
-                        await asyncio.sleep(think / 1000.0)
-                    body = await r.read()
+                    if name == "R" and sc.get("slow"):
+                        # slow streaming consumer: one readany(), then busy elsewhere for `think` ms
+                        while True:
+                            chunk = await r.content.readany()
+                            if not chunk:
+                                break
+                            await asyncio.sleep(think / 1000.0)
+                        body = b""
+                    else:
+                        if think:
+                            await asyncio.sleep(think / 1000.0)
+                        body = await r.read()
                 res[name] = "ok" if (name == "R" or body == b"ok") else "E_OTHER(body)"
             except BaseException as e:  # noqa
                 res[name] = _classify(e)
@@ -362,7 +405,8 @@ def run_scenario(sc):
                             tr.autorespond()
                 events.append((sc["holder"], 1, rel))
         body = (b"x" * sc["body"]) if sc.get("body") else None
-        start_r = lambda: spawn("R", f"http://{rhost}/", data=body, think=sc.get("think", 0))
+        scheme = "https" if sc.get("tls") is not None else "http"
+        start_r = lambda: spawn("R", f"{scheme}://{rhost}/", data=body, think=sc.get("think", 0))
         start_c = lambda: spawn("C", f"http://{rhost}/", timeout=long)
         co = sc.get("co")
         if co == "dnsfirst":
@@ -370,6 +414,16 @@ def run_scenario(sc):
         events.append((t0, 3, start_r))
         if co in ("pool", "dnswait"):
             events.append((t0 + 1, 2, start_c))
+        if co == "dnsafter":
+            def start_c_late(k=sc.get("c_late", 0)):
+                if k <= 0:
+                    start_c()
+                else:
+                    loop.call_soon(start_c_late, k - 1)
+            events.append((sc["c_at"], 1001, start_c_late))
+        for i, t in enumerate(sc.get("tls") or []):
+            if t >= 0:
+                events.append((t, 5, lambda i=i: env.tls_complete(i)))
         if sc.get("dns") is not None and sc["dns"] >= 0:
             events.append((sc["dns"], 4, env.dns_answer))
         for i, t in enumerate(sc.get("conn", [])):
@@ -441,7 +495,7 @@ def run_scenario(sc):
                 continue          # the connector's shared lookup (reported separately)
             live.append(nm if nm in ("R", "H", "C") else "task")
         h_holding = 1 if (sc.get("holder") is not None and res["H"] is None) else 0
-        if co in ("dnsfirst", "dnswait") and res["C"] is None and "C" in tasks:
+        if co in ("dnsfirst", "dnswait", "dnsafter") and res["C"] is None and "C" in tasks:
             h_holding += 1        # the co-request's own placeholder while it waits for the lookup
         out.update(
             r=res["R"] or "pending", r_at=at.get("R", -1), hdr_at=at.get("headers", -1),
@@ -458,7 +512,7 @@ def run_scenario(sc):
             dns_calls=env.dns_calls,
             trace=env.trace,
             eff_total=None if tmo.total is None else int(round(tmo.total * 1000)),
-            c_waits_dns=1 if (co in ("dnsfirst", "dnswait") and res["C"] is None and "C" in tasks
+            c_waits_dns=1 if (co in ("dnsfirst", "dnswait", "dnsafter") and res["C"] is None and "C" in tasks
                               and conn._throttle_dns_futures) else 0,
         )
         # ---------------------------------------------------------------- follow-up: peer un-stalls
@@ -466,6 +520,8 @@ def run_scenario(sc):
         env.dns_answer()
         for i in range(len(env.conn_futs)):
             env.conn_complete(i)
+        for i in range(len(env.tls_futs)):
+            env.tls_complete(i)
         for tr in env.transports:
             tr.resume_writing_now()
             if tr.owner == "H":
